@@ -131,8 +131,8 @@ Emit == (Len(h) = Depth) =>
 
 (* ---- encoding law: decision table ------------------------------------------------------------- *)
 (* A case is (helper, original string as code points); the law says: the emitted header is pure
-   ASCII and the RFC decoder returns the original.  Strings are all concatenations of at most
-   EncLen blocks of EncPool.  A plain `title` is only defined for ASCII (documented: "use title_star") without
+   ASCII, every "%" in an emitted URI starts a %XX escape, and the RFC decoder returns the original.  Strings
+   are all concatenations of at most EncLen blocks of the helper's pool.  A plain `title` is only defined for ASCII (documented: "use title_star") without
    control characters (an RFC 9110 quoted-string cannot carry them, so no encoder could satisfy the law). *)
 CONSTANTS EncLen
 EncPool == { <<97>>, <<34>>, <<92>>, <<32>>, <<37>>, <<37, 52, 49>>, <<47>>, <<60>>, <<62>>, <<44>>, <<59>>, <<39>>, <<43>>,
@@ -141,7 +141,12 @@ EncHelpers == {"location", "content_location", "downloadable_as", "viewable_as",
                "link_title_star", "link_anchor", "link_rel"}
 RECURSIVE Concat(_)
 Concat(ss) == IF ss = <<>> THEN <<>> ELSE Head(ss) \o Concat(Tail(ss))
-EncStrings == {Concat(t) : t \in UNION {[1..k -> EncPool] : k \in 1..EncLen}}
+(* for the helpers that go through the "already escaped?" heuristic: "%" followed by a sign and a hex digit, by a
+   single hex digit, by non-hex, next to genuine escapes - none of them is an escape (RFC 3986: "%" HEXDIG HEXDIG) *)
+PctPool == { <<37, 45, 53>>, <<37, 43, 49>>, <<37, 43, 70>>, <<37, 52>>, <<37, 122, 122>>, <<37, 50, 48>> }
+PctHelpers == {"location", "content_location", "link_target"}
+PoolOf(hp) == IF hp \in PctHelpers THEN EncPool \cup PctPool ELSE EncPool
+StringsOf(hp) == {Concat(t) : t \in UNION {[1..k -> PoolOf(hp)] : k \in 1..EncLen}}
 IsAscii(s) == \A i \in 1..Len(s) : s[i] < 128
 IsCtl(c) == (c < 32 /\ c # 9) \/ c = 127
 Expressible(hp, s) == /\ (hp = "link_title" => (IsAscii(s) /\ \A i \in 1..Len(s) : ~IsCtl(s[i])))
@@ -149,7 +154,7 @@ Expressible(hp, s) == /\ (hp = "link_title" => (IsAscii(s) /\ \A i \in 1..Len(s)
                             => ~LooksEscaped(s))
                       /\ (hp = "link_rel" => (\A i \in 1..Len(s) : s[i] # 32))     \* one relation type
 EncInit == /\ Init
-           /\ h \in {[helper |-> hp, s |-> s, dec |-> s] : hp \in EncHelpers, s \in EncStrings}
+           /\ h \in UNION {{[helper |-> hp, s |-> s, dec |-> s] : s \in StringsOf(hp)} : hp \in EncHelpers}
            /\ Expressible(h.helper, h.s)
 EncNext == UNCHANGED <<vars, h>>
 EncEmit == PrintT(ToJson(h))
